@@ -142,10 +142,16 @@ def gen_cfg(rng):
   return float(rng.choice([2.0, 1.0, 0.5, 1e-3])), float(rng.choice([2.0, 1.0, 0.5, 0.1]))
 
 
+QUICK_SHAPES = [(), (1,), (3,), (5,), (1, 1), (2, 3), (4, 2), (3, 4)]
+
+
 def gen_bshape(rng, big=False):
+  """batch shapes with 0, 1, 2 leading axes.  quick: a pool of 8 shapes (each (event size, shape) pair
+  costs one XLA compilation); thorough: every shape with axes in 1..6"""
+  if not big:
+    return QUICK_SHAPES[int(rng.integers(0, len(QUICK_SHAPES)))]
   nd = int(rng.choice([0, 1, 2], p=[0.15, 0.35, 0.5]))
-  hi = 6 if big else 4
-  return tuple(int(rng.integers(1, hi + 1)) for _ in range(nd))
+  return tuple(int(rng.integers(1, 7)) for _ in range(nd))
 
 
 def gen_dist_case(rng, idx, big=False):
@@ -170,18 +176,21 @@ def gen_dist_case(rng, idx, big=False):
               key=int(rng.integers(0, 2 ** 31 - 1)), params=params.tolist(), x=x.tolist(), y=y.tolist())
 
 
+INFER_POOL = [  # (obs size, hidden layers, batch shape)
+    (3, (4, 4), (2, 3)), (1, (3,), ()), (5, (5, 2), (4,)), (2, (), (1, 1)),
+    (4, (4, 4), (3,)), (3, (3,), (2, 2)), (2, (5, 2), ()), (5, (), (5,))]
+
+
 def gen_infer_case(rng, idx):
   n = 1 + idx % 6
-  O = int(rng.integers(1, 6))
-  hidden = [(4, 4), (3,), (5, 2), ()][int(rng.integers(0, 4))]
-  bshape = gen_bshape(rng)
+  O, hidden, bshape = INFER_POOL[(idx // 2) % len(INFER_POOL)]
   B = int(np.prod(bshape)) if bshape else 1
   sizes = [O] + list(hidden) + [2 * n]
   layers = []
   for din, dout in zip(sizes[:-1], sizes[1:]):
     layers.append(dict(kernel=rng.uniform(-1.5, 1.5, size=(din, dout)).tolist(),
                        bias=rng.uniform(-1.0, 1.0, size=(dout,)).tolist()))
-  # spread the last layer so that loc covers [-10,10] and the raw scale a wide range
+  # spread the last layer so that loc covers about [-10,10] and the raw scale a wide range
   layers[-1]['bias'] = np.concatenate([rng.uniform(-6, 6, size=n), rng.uniform(-8, 4, size=n)]).tolist()
   return dict(kind='infer', n=n, O=O, hidden=list(hidden), bshape=list(bshape),
               deterministic=bool(idx % 2), key=int(rng.integers(0, 2 ** 31 - 1)),
@@ -193,24 +202,44 @@ def gen_infer_case(rng, idx):
 # ----------------------------------------------------------------------------- real code
 
 
-def run_real_dist(case):
-  """calls the real NormalTanhDistribution; everything flattened to (B, ·) float64 numpy"""
+_DIST_FN = {}
+
+
+def _dist_bundle(n, jit):
+  """all observed methods of the real NormalTanhDistribution in one function of
+  (min_std, var_scale, parameters, actions, squashed actions, key)"""
+  if (n, jit) in _DIST_FN:
+    return _DIST_FN[(n, jit)]
+  jax = _jax()
+  from brax.training import distribution as D
+
+  def f(min_std, var_scale, P, X, Y, key):
+    d = D.NormalTanhDistribution(event_size=n, min_std=min_std, var_scale=var_scale)
+    assert d.param_size == 2 * n
+    dist = d.create_dist(P)
+    return dict(
+        eps=jax.random.normal(key, shape=P.shape[:-1] + (n,)),   # the draw NormalDistribution.sample makes
+        sample=d.sample(P, key), mode=d.mode(P), raw=d.sample_no_postprocessing(P, key),
+        scale=dist.scale, loc=dist.loc, logp=d.log_prob(P, X), ent=d.entropy(P, key),
+        post=d.postprocess(X), inv=d.inverse_postprocess(Y))
+
+  _DIST_FN[(n, jit)] = jax.jit(f) if jit else f
+  return _DIST_FN[(n, jit)]
+
+
+def run_real_dist(case, jit=True):
+  """calls the real NormalTanhDistribution (jitted per shape, or op by op); everything flattened to
+  (B, ·) float64 numpy"""
   jax = _jax()
   import jax.numpy as jnp
-  from brax.training import distribution as D
   n, bshape = case['n'], tuple(case['bshape'])
-  d = D.NormalTanhDistribution(event_size=n, min_std=case['min_std'], var_scale=case['var_scale'])
-  assert d.param_size == 2 * n
   P = jnp.asarray(np.asarray(case['params'], dtype=np.float64).reshape(bshape + (2 * n,)))
   X = jnp.asarray(np.asarray(case['x'], dtype=np.float64).reshape(bshape + (n,)))
   Y = jnp.asarray(np.asarray(case['y'], dtype=np.float64).reshape(bshape + (n,)))
   key = jax.random.PRNGKey(case['key'])
-  eps = jax.random.normal(key, shape=bshape + (n,))       # the draw NormalDistribution.sample makes
-  dist = d.create_dist(P)
-  out = dict(
-      eps=eps, sample=d.sample(P, key), mode=d.mode(P), raw=d.sample_no_postprocessing(P, key),
-      scale=dist.scale, loc=dist.loc, logp=d.log_prob(P, X), ent=d.entropy(P, key),
-      post=d.postprocess(X), inv=d.inverse_postprocess(Y), sample2=d.sample(P, key))
+  f = _dist_bundle(n, jit)
+  out = dict(f(case['min_std'], case['var_scale'], P, X, Y, key))
+  out['sample2'] = f(case['min_std'], case['var_scale'], P, X, Y, key)['sample']     # same key again
   res = {}
   for k, v in out.items():
     v = np.asarray(v, dtype=np.float64)
@@ -233,29 +262,42 @@ def np_logits(case):
   return h
 
 
+_INFER_FN = {}
+
+
+def _infer_fn(O, n, hidden, det):
+  k = (O, n, tuple(hidden), det)
+  if k in _INFER_FN:
+    return _INFER_FN[k]
+  jax = _jax()
+  from brax.training.agents.ppo import networks as PN
+  from brax.training.acme import running_statistics as RS
+  nets = PN.make_ppo_networks(O, n, preprocess_observations_fn=RS.normalize,
+                              policy_hidden_layer_sizes=tuple(hidden))
+  make_policy = PN.make_inference_fn(nets)
+
+  def f(norm, pparams, obs, key):
+    return make_policy((norm, pparams), deterministic=det)(obs, key)
+
+  _INFER_FN[k] = jax.jit(f)
+  return _INFER_FN[k]
+
+
 def run_real_infer(case):
   jax = _jax()
   import jax.numpy as jnp
-  from brax.training.agents.ppo import networks as PN
   from brax.training.acme import running_statistics as RS
   n, O, bshape = case['n'], case['O'], tuple(case['bshape'])
-  nets = PN.make_ppo_networks(O, n, preprocess_observations_fn=RS.normalize,
-                              policy_hidden_layer_sizes=tuple(case['hidden']))
   pparams = {'params': {f'hidden_{i}': {'kernel': jnp.asarray(np.asarray(l['kernel'], dtype=np.float64)),
                                         'bias': jnp.asarray(np.asarray(l['bias'], dtype=np.float64))}
                         for i, l in enumerate(case['layers'])}}
-  ref = nets.policy_network.init(jax.random.PRNGKey(0))
-  shp = lambda t: jax.tree_util.tree_map(lambda a: tuple(a.shape), t)
-  if shp(ref) != shp(pparams):
-    raise AssertionError(f'parameter tree mismatch {shp(ref)} vs {shp(pparams)}')
   norm = RS.RunningStatisticsState(
       mean=jnp.asarray(np.asarray(case['mean'], dtype=np.float64)),
       std=jnp.asarray(np.asarray(case['std'], dtype=np.float64)),
       count=jnp.asarray(17.0), summed_variance=jnp.asarray(np.ones(O)))
-  policy = PN.make_inference_fn(nets)((norm, pparams), deterministic=case['deterministic'])
   obs = jnp.asarray(np.asarray(case['obs'], dtype=np.float64).reshape(bshape + (O,)))
   key = jax.random.PRNGKey(case['key'])
-  action, extra = policy(obs, key)
+  action, extra = _infer_fn(O, n, case['hidden'], case['deterministic'])(norm, pparams, obs, key)
   eps = np.asarray(jax.random.normal(key, shape=bshape + (n,)), dtype=np.float64).reshape(-1, n)
   action = np.asarray(action, dtype=np.float64)
   if action.shape != bshape + (n,):
@@ -536,6 +578,7 @@ def correspond(ctx):
   rng = np.random.default_rng(ctx.seed)
   target_rows = ctx.budget(500, 20000)
   n_infer = ctx.budget(48, 600)
+  n_eager = ctx.budget(6, 40)          # cases run op by op (no jit)
   spec_rows_budget = ctx.budget(500, 4000)
   big = ctx.tier == 'thorough'
   stats = dict(rows=0, infer_rows=0, compared=0, skipped_ill_conditioned_logp=0, nonfinite_real_output=0)
@@ -548,7 +591,7 @@ def correspond(ctx):
   distinct = set()
   while rows < target_rows:
     case = gen_dist_case(rng, idx, big); idx += 1
-    real = run_real_dist(case)
+    real = run_real_dist(case, jit=not (idx <= n_eager))
     cases.append(case); reals.append(real); lines.append(dist_line(case, real))
     B = real['eps'].shape[0]
     rows += B
